@@ -10,7 +10,7 @@ from .. import tlc as T
 from ..core import Ctx, pmap
 from ..tlaval import load_dump
 
-INV = ["ResultsPartition", "GTConservation", "TPJustified", "NothingOutsideCritical", "ApWithinUnit"]
+INV = ["ResultsPartition", "GTConservation", "TPJustified", "NothingOutsideCritical", "ApWithinUnit", "Progress"]
 ACTIONS = ["StepFilter", "StepMatch", "StepUuid", "StepCrit", "StepClassify", "StepMetrics"]
 T2 = '<<"car","pedestrian">>'
 T3 = '<<"car","pedestrian","unknown">>'
@@ -394,7 +394,7 @@ def plain(v):
 def run_pipeline(ctx: Ctx, want):
     """want(rendering, kind, fields) -> bool : which mismatches belong to this property"""
     for name, consts in families(ctx.tier).items():
-        res = T.run_model("MC_Pipeline", "MCP_%s_%s" % (ctx.pid, name), consts, invariants=INV, properties=["InputsUntouched"], model_values=(),
+        res = T.run_model("MC_Pipeline", "MCP_%s_%s" % (ctx.pid, name), consts, invariants=INV, properties=["InputsUntouched", "PcAdvances"], model_values=(),
                           tlc_kwargs=dict(dump=True, allow_violation=False, seed=ctx.seed, timeout=3000))
         ctx.add_tlc(res, "MC_Pipeline/" + name, must_take=ACTIONS)
         ctx.log("tlc %s: %d states %.1fs" % (name, res.distinct, res.wall))
